@@ -21,7 +21,14 @@ theorems of `Props/C13.lean` are about those definitions at ℝ) AND corresponde
       no call changes its input (mean / variance / covariance bit-identical), every call gives the value for the caller's N(m,v);
       Bernoulli log_marginal swept over signed links in [-6, 6] (dense below -1: label against a confident prediction, v -> 0);
   (6) log_normal_cdf value and gradient vs mpmath on a dense sweep of [-40, 10] incl. the branch boundaries,
-      and the generated branch formulas run at Lean `Float`.
+      and the generated branch formulas run at Lean `Float`;
+  (7) the 2N moment equations of the node tables the objects really store (float64 and float32 default dtype): residual
+      bounds certified exactly in ℚ by the driver (`momentResidualBound`; theorems `moment_residual_certified`,
+      `gh_certified_error`), compared with a stated numeric bound;
+  (8) histories (props/_c13hist.py): ONE autograd graph through log_normal_cdf / Bernoulli expected_log_prob back-propagated
+      several times (every pass = g·phi/Phi; generated `lncdfBackwardNth k` vs the k-th real pass); ONE rule / likelihood
+      object used in sequence under float16 / bfloat16 / float32 / float64 distributions, several distribution kinds,
+      observation batches and both Bernoulli label encodings (every float64 call judged; object state unchanged by calls).
 """
 import math
 import os
@@ -39,15 +46,23 @@ RULE = ("(a) N in {5,10,20,33,default} x random (m, v incl. v=0 and tiny) x batc
         "and random polynomials, node storage float64 and float32; distinct = (N, dtype, degree, shape); (b) 4 likelihoods "
         "x {expected_log_prob, log_marginal} x random parameters x N in {5,10,20,40,80}; (c) Bernoulli marginal on random "
         "(m, v); (d) conditional parameters on random inputs; (e) dense z sweep; non-trivial = degree >= 1 / non-degenerate "
-        "variance / z outside the exactly representable points")
+        "variance / z outside the exactly representable points; (f) moment equations k < 2N of the stored tables, "
+        "N in {5,10,20,33,40(,80)} x {float64, float32}; (g) backward histories: graph kind x 2..8 passes x upstream "
+        "patterns x branch mix; (h) object histories: object kind x construction dtype x op sequence over "
+        "{poly, elp, log_marginal, marginal, double} x call dtype x distribution kind x label encoding; distinct = the sequence")
 EXHAUSTIVE = False
 TRUSTED = ["translator harness/translate/g4_quadrature.py (Python ast -> Gen/Quadrature.lean)",
-           "modelled not verified: numpy.polynomial.hermite.hermgauss (the node table), torch.distributions "
-           "Normal.cdf / Laplace / StudentT / Beta / Bernoulli / Categorical log_prob, torch autograd",
+           "modelled not verified: torch.distributions Normal.cdf / Laplace / StudentT / Beta / Bernoulli / Categorical "
+           "log_prob, torch autograd; numpy.polynomial.hermite.hermgauss is NOT trusted for the values of the table any more "
+           "(the stored table's moment equations are certified in ℚ on every run), only as the reference for measuring the "
+           "float32 storage error",
            "mpmath (30 digits): ncdf, npdf, loggamma, quad — reference integrals and reference log Phi",
            "Lean Float = IEEE double with C libm"]
-ASSUMPTIONS = ["numpy's hermgauss(N) is exact for polynomials of degree < 2N against exp(-t^2) (hypothesis of gh_transfer; "
-               "observed through the exact-moment comparison, not proved)",
+ASSUMPTIONS = ["stated numeric bound (replaces 'numpy's hermgauss is right'): the float64 table stored by GaussHermiteQuadrature1D(N) "
+               "satisfies the 2N moment equations with certified residual <= 1e-12·(1/sqrt(pi))·Σ|w||t|^k (float32-stored tables: "
+               "(k+2)·2^-22) — computed exactly in ℚ by the driver for N in {5,10,20,33,40(,80)} on every run (observed <= 3.4e-15 / "
+               "7.8e-7); for other N it is an assumption; gh_residual_bound turns the residuals into an error bound for every "
+               "polynomial of degree < 2N and every N(m,v)",
                "E_{N(m,v)} Phi(f) = Phi(m/sqrt(1+v)) (probit identity): checked numerically at 30 digits",
                "|log_normal_cdf - log Phi| <= 2e-3: checked on a dense sweep, not proved",
                "float64 inputs; nodes are stored in the default dtype at construction (float32 by default)"]
@@ -1043,6 +1058,130 @@ def compare_lean(ctx, recs, replies):
     ctx.count("lean_mismatches", bad)
 
 
+# ------------------------------------------------------------------ (7) histories: repeated backward, one object under several dtypes / encodings
+
+def check_backward_histories(ctx, want_driver=True, deep=False):
+    """ONE autograd graph through log_normal_cdf back-propagated several times (see _c13hist): every pass = g·phi/Phi."""
+    from props import _c13hist as H
+    rng = ctx.rng("backward-histories" + (":deep" if deep else ""))
+    recs_all = []
+    for spec in H.gen_backward_specs(rng, deep):
+        probs, recs = H.run_backward(spec)
+        npass = len(spec["passes"])
+        ctx.case(f"BH:{spec['graph']}:{npass}:{spec.get('dist', len(spec.get('shape', [])))}:" +
+                 ",".join(p_.get("how", "+".join(p_.get("wrt", []))) for p_ in spec["passes"]),
+                 sample={"graph": spec["graph"], "passes": npass})
+        ctx.count("backward_history_graphs")
+        ctx.count("backward_history_passes", npass)
+        for key, what in probs[:2]:
+            ctx.fail(key, what, spec)
+        recs_all += recs
+    if want_driver and recs_all:
+        srng = ctx.rng("backward-histories:lean")
+        sub = [r for r in recs_all if r[1] < -1 or r[1] * r[1] < 0.04 or srng.random() < 0.3]
+        sub = srng.sample(sub, min(len(sub), 120 if ctx.quick else 1200))
+        replies = C.run_driver("C13", [f"R {j} {bits(z)} {bits(lp)}" for j, z, lp, _ in sub])
+        bad = 0
+        for (j, z, lp, unit), rep in zip(sub, replies):
+            ctx.count("lean_backward_nth_comparisons")
+            mg = unbits(rep)
+            if not abs(mg - unit) <= 1e-11 * (1 + abs(unit)):
+                bad += 1
+                if bad <= 2:
+                    ctx.broke("correspondence", "generated backward (k-th pass) vs implementation",
+                              f"backward pass #{j + 1} at z={z!r}: autograd returned {unit!r} per unit upstream gradient, the generated "
+                              f"`lncdfBackwardNth {j}` gives {mg!r}")
+        ctx.count("lean_backward_nth_mismatches", bad)
+
+
+def check_object_histories(ctx, want_driver=True, deep=False):
+    """ONE rule / likelihood object used under several dtypes, distribution kinds, observation batches and label encodings
+    in sequence (see _c13hist): every float64 call is judged and no call may change the object."""
+    from props import _c13hist as H
+    rng = ctx.rng("object-histories" + (":deep" if deep else ""))
+    pend = []
+    tot = {}
+    for spec in H.gen_object_specs(rng, deep):
+        probs, state, mreq, cnt = H.run_object(spec, _mp_logp)
+        for k_, v_ in cnt.items():
+            tot[k_] = tot.get(k_, 0) + v_
+        ctx.case(f"OH:{spec['object']}:{spec['built_under']}:{spec['N']}:" +
+                 ">".join(c_["op"] + ":" + c_.get("dtype", "")[-2:] + ":" + c_.get("dist", "")[:2] + ":" + c_.get("enc", "") for c_ in spec["ops"]),
+                 sample={"object": spec["object"], "built_under": spec["built_under"],
+                         "ops": [c_["op"] + ("" if c_["op"] == "double" else "/" + c_["dtype"]) for c_ in spec["ops"]]})
+        ctx.count("object_histories")
+        for key, what in probs[:2]:
+            ctx.fail(key, what, spec)
+        for name, what in state[:1]:
+            ctx.count("object_history_state_changes")
+            if sum(1 for b_ in ctx.broken if b_[1] == f"instance-state-written:{name}") < 2:
+                ctx.broke("correspondence", f"instance-state-written:{name}", what)
+        if mreq:
+            pend.append((spec, mreq))
+    for k_, v_ in tot.items():
+        ctx.count("object_history_" + k_, v_)
+    # exact moments: from the Lean driver (ℚ); the python recursion only when the driver is unavailable
+    lines = [f"M {C.rat_str(m)} {C.rat_str(v)} {K}" for _, mreq in pend for (m, v, K, _, _) in mreq]
+    replies = C.run_driver("C13", lines) if (want_driver and lines) else None
+    pos = 0
+    for spec, mreq in pend:
+        moments = None
+        if replies is not None:
+            moments = [[C.parse_rat(t) for t in replies[pos + i].split()] for i in range(len(mreq))]
+            pos += len(mreq)
+        for key, what in H.judge_moments(spec, mreq, moments)[:1]:
+            ctx.fail(key, what, spec)
+
+
+def check_moment_equations(ctx, want_driver=True):
+    """The 2N moment equations (1/sqrt(pi))·Σ w_i t_i^k = M_k(0, 1/2), k < 2N, of the tables the objects really store:
+    residual bounds certified exactly in ℚ by the driver (`momentResidualBound`, theorem `moment_residual_certified`)."""
+    import numpy as np
+    import torch
+    from props import _c13hist as H
+    from gpytorch.utils.quadrature import GaussHermiteQuadrature1D
+    tables = []
+    for dtype_name, Ns in (("float64", [5, 10, 20, 33, 40] + ([] if ctx.quick else [80])), ("float32", [5, 10, 20, 33])):
+        torch.set_default_dtype(torch.float64 if dtype_name == "float64" else torch.float32)
+        try:
+            for N in Ns:
+                q = GaussHermiteQuadrature1D(N)
+                tables.append((dtype_name, N, q.locations.double().tolist(), q.weights.double().tolist()))
+        finally:
+            torch.set_default_dtype(torch.float32)
+    worst = {}
+    if want_driver:
+        replies = C.run_driver("C13", [f"Q {N} " + " ".join(f"{C.rat_str(a)} {C.rat_str(b)}" for a, b in zip(t, w)) for _, N, t, w in tables])
+        res = []
+        for rep in replies:
+            tk = rep.split()
+            res.append([(C.parse_rat(tk[2 * i]), C.parse_rat(tk[2 * i + 1])) for i in range(len(tk) // 2)])
+    else:
+        res = [H.moment_residuals_mirror(t, w) for _, _, t, w in tables]
+    for (dtype_name, N, t, w), pairs in zip(tables, res):
+        if len(pairs) != 2 * N:
+            ctx.broke("correspondence", "driver:Q", f"N={N}: {len(pairs)} residuals for {2 * N} equations")
+            continue
+        for k, (bound, scale) in enumerate(pairs):
+            # stated numeric bound: float64 tables 1e-12, float32-stored tables (k+2)·2^-22, relative to (1/sqrt(pi))·Σ|w||t|^k
+            lim = 1e-12 if dtype_name == "float64" else (k + 2) * 2.0 ** -22
+            ratio = float(bound / scale)
+            ctx.case(f"Q:{dtype_name}:N{N}:k{k}", nontrivial=(k % 2 == 0), sample={"dtype": dtype_name, "N": N, "k": k, "certified_residual_over_scale": ratio})
+            worst[f"{dtype_name}:N={N}"] = max(worst.get(f"{dtype_name}:N={N}", 0.0), ratio)
+            if not ratio <= lim:
+                ctx.fail("ghq:moment-equations", f"GaussHermiteQuadrature1D({N}) [{dtype_name} default dtype]: the stored table violates the "
+                         f"moment equation of degree {k}: |(1/sqrt(pi))·Σ w t^{k} − M_{k}(0,1/2)| ≤ {float(bound):.3e} is the certified bound, "
+                         f"i.e. {ratio:.2e} of the scale (limit {lim:.1e})", {"kind": "moment-equations", "N": N, "dtype": dtype_name, "k": k})
+                break
+    ctx.notes["ghq_moment_residual_certified_over_scale"] = worst
+    if want_driver:
+        rep = C.run_driver("C13", ["P"])[0]
+        ctx.notes["generated_purity_facts"] = rep
+        parts = [x.strip() for x in rep.split("|")]
+        if not (parts[0] == "0" and set(parts[1].split()) <= {"0"} and parts[2] == "true" and parts[3] == "true true"):
+            ctx.broke("correspondence", "generated purity facts", f"the regenerated code writes state / selects the label map by state: {rep}")
+
+
 def correspondence(ctx, want_driver=True):
     import torch
     torch.set_num_threads(2)
@@ -1061,6 +1200,9 @@ def correspondence(ctx, want_driver=True):
     check_lncdf(ctx, lines, lrecs)
     if want_driver and lines:
         compare_lean(ctx, lrecs, C.run_driver("C13", lines))
+    check_moment_equations(ctx, want_driver=want_driver)
+    check_backward_histories(ctx, want_driver=want_driver)
+    check_object_histories(ctx, want_driver=want_driver)
     check_construction_histories(ctx, want_driver=want_driver)
     _state["ran"] = True
 
@@ -1068,15 +1210,33 @@ def correspondence(ctx, want_driver=True):
 def search(ctx, broken):
     """Proof / translator / driver broke: every oracle above except the Lean-Float comparisons runs on the real code
     against exact or 30-digit references (the exact moments then come from the same recursion in Python Fractions)."""
-    if ctx.failures or _state.get("ran"):
+    if ctx.failures:
         return
-    correspondence(ctx, want_driver=False)
+    if not _state.get("ran"):
+        correspondence(ctx, want_driver=False)
+    if ctx.failures:
+        return
+    # deeper history programs (longer sequences, more passes, more dtype / encoding orders) against the specification
+    check_backward_histories(ctx, want_driver=False, deep=True)
+    check_object_histories(ctx, want_driver=False, deep=True)
 
 
 def replay(ctx, payload):
     import torch
     case = payload["case"]
     k = case.get("kind")
+    if k == "backward-history":
+        from props import _c13hist as H
+        return not any(key == payload["key"] for key, _ in H.run_backward(case)[0])
+    if k == "object-history":
+        from props import _c13hist as H
+        probs, state, mreq, _ = H.run_object(case, _mp_logp)
+        probs = probs + H.judge_moments(case, mreq, None)
+        return not any(key == payload["key"] for key, _ in probs)
+    if k == "moment-equations":
+        sub = _Ctx2()
+        check_moment_equations(sub, want_driver=False)
+        return not any(f["key"] == payload["key"] for f in sub.failures)
     if k in ("call-history", "bernoulli-log-marginal"):
         sub = _Ctx2()
         (check_call_histories if k == "call-history" else check_bernoulli_log_marginal_sweep)(sub)
